@@ -34,8 +34,12 @@ def big_spec(rng):
     base.sort(key=lambda x: -x[1])
     return {'encoding': 'utf-8', 'uuid': 'big-%08x' % rng.getrandbits(32), 'base': base, 'prince': [], 'terms': terms, 'omen': None}
 
-def check_noquit(run, case, name, sn, U, I, steps, label):
-    r, s = sched.run_scheduled(['-r', name, '-s', sn], steps)
+AGES = [None, None, 59, 3600, 86399, 86400, 172799, 172800, 200000, 10 ** 7, 10 ** 10]
+
+def check_noquit(run, case, name, sn, U, I, steps, label, age=None):
+    r, s = sched.run_scheduled(['-r', name, '-s', sn], steps, age=age)
+    if age:
+        run.ev('aged_session_runs'); run.add_to_set('session_ages', str(age))
     run.ev('scheduled_runs'); run.ev('line_events', s.n_events)
     run.add_to_set('interleavings', s.digest())
     for st in s.sites:
@@ -45,6 +49,9 @@ def check_noquit(run, case, name, sn, U, I, steps, label):
         run.inconc('scheduler watchdog: ' + s.problems[0]); return True
     if r.exc is not None:
         run.violation(f'{label} {desc}: main() raised {r.exc!r}', case, observed=r.stderr[-500:]); return False
+    if r.stdout != '':
+        run.violation(f'{label} {desc} (session age {age}s): keypress-thread activity wrote to stdout, which carries the guess stream', case,
+                      observed=r.stdout[:200]); return False
     if r.guesses != U.guesses:
         k = next((i for i, (a, b) in enumerate(zip(r.guesses, U.guesses)) if a != b), min(len(r.guesses), len(U.guesses)))
         run.violation(f'{label}: stream changed by keypress-thread activity {desc} (no quit was requested): {len(r.guesses)} of {len(U.guesses)} guesses, '
@@ -57,8 +64,10 @@ def check_noquit(run, case, name, sn, U, I, steps, label):
 
 def check_quit(run, case, name, sn, U, Upg, I, steps, label):
     session.drop_session(sn)
-    A, s = sched.run_scheduled(['-r', name, '-s', sn], steps)
+    A, s = sched.run_scheduled(['-r', name, '-s', sn], steps, age=[None, 172800, 10 ** 6][len(steps) % 3])
     run.ev('scheduled_runs'); run.ev('line_events', s.n_events); run.ev('quit_runs')
+    if A.stdout != '':
+        run.violation(f'{label} {[x.as_list() for x in steps]}: the quit handling wrote to stdout', case, observed=A.stdout[:200]); return False
     run.add_to_set('interleavings', s.digest())
     desc = [x.as_list() for x in steps]
     if s.problems:
@@ -143,7 +152,19 @@ def check_resumed_phase(run, case, name, sn, Bref, label, desc):
         hi = max(2, int(I * len(pre) / max(1, len(Bref.guesses))))
         p = rng.randint(1, hi)
         st = sched.Step(p, act)
+        # a session that has been running for days: the saved running_time is what a resumed status report starts from
+        aged = rng.choice([0, 86400, 172800, 400000, 10 ** 9])
+        if aged:
+            cfg = session.read_sav(sn)
+            cfg.set('session_info', 'running_time', str(aged))
+            cfg.set('session_info', 'num_guesses', str(rng.choice([5, 10 ** 6, 10 ** 13])))
+            with open(session.session_files(sn)[0], 'w') as f:
+                cfg.write(f)
+            run.ev('aged_session_runs'); run.add_to_set('session_ages', 'saved:' + str(aged))
         R, s = sched.run_scheduled(['-r', name, '-s', sn, '--load'], [st])
+        if R.stdout != '':
+            run.violation(f'{label}: resumed run (saved running_time {aged}s): a {act!r} request wrote to stdout, which carries the guess stream', case,
+                          observed=R.stdout[:200]); return False
         run.ev('scheduled_runs'); run.ev('scheduled_resumed_runs'); run.add_to_set('interleavings', s.digest())
         if s.problems:
             run.inconc('scheduler watchdog: ' + s.problems[0]); continue
@@ -195,7 +216,7 @@ def check_case(run, case, tier='quick'):
             act = rng.choice(['', 'h', EOF, ERR, '', 'zz'])
             hold = rng.choice([None, None, rng.randint(1, 60)])
             rel = None if hold is None else p + rng.randint(1, 80)
-            if not check_noquit(run, case, name, sn, U, I, [sched.Step(p, act, hold, rel)], 'single request'):
+            if not check_noquit(run, case, name, sn, U, I, [sched.Step(p, act, hold, rel)], 'single request', age=rng.choice(AGES)):
                 return
             run.case()
         # sequences of up to 3 requests (status/help), optionally ending with EOF / handler error
@@ -204,7 +225,7 @@ def check_case(run, case, tier='quick'):
             ps = sorted(rng.sample(pts_all, k))
             acts = [rng.choice(['', 'h', 'x']) for _ in range(k - 1)] + [rng.choice(['', 'h', EOF, ERR])]
             steps = [sched.Step(p, a, rng.choice([None, rng.randint(1, 40)]), p + rng.randint(1, 40)) for p, a in zip(ps, acts)]
-            if not check_noquit(run, case, name, sn, U, I, steps, 'request sequence'):
+            if not check_noquit(run, case, name, sn, U, I, steps, 'request sequence', age=rng.choice(AGES)):
                 return
             run.case()
         # explicit quit at p, flag and thread exit separated (hold after the flag is set, release later)
@@ -278,7 +299,7 @@ def check_stdin(run, case):
         repo.drop_rules(name)
 
 def run(run, rng):
-    run.required_events = ['scheduled_runs', 'quit_runs', 'resumes', 'cli_runs', 'quit_inside_markov_level', 'scheduled_resumed_runs', 'quit_promptness_checked']
+    run.required_events = ['scheduled_runs', 'quit_runs', 'resumes', 'cli_runs', 'quit_inside_markov_level', 'scheduled_resumed_runs', 'quit_promptness_checked', 'aged_session_runs']
     run.min_distinct = 30
     run.assumptions = ['yield points = statement boundaries (LINE events) of run/_save_session/omen_generate_guesses/_recursive_guesses/restore_omen in the generation '
                        'thread and of keypress/print_status/get_status in the helper thread; preemption inside a single statement is not modelled',
